@@ -107,6 +107,50 @@ func codecOf(hc bool) messages.Codec {
 	return nil
 }
 
+// ---- the ActorRef factory is an uninterpreted function of the model: record the real one's answers ----
+
+type refCall struct {
+	addr, path string
+	ok         bool
+	ra, rp     string
+}
+
+var refCalls []refCall
+
+func installRefRecorder() {
+	orig := vivid.XVActorRefFactory()
+	if orig == nil {
+		panic("no ActorRef factory registered by internal/actor")
+	}
+	vivid.RegisterActorRefFactory(func(address, path string) (vivid.ActorRef, error) {
+		r, err := orig(address, path)
+		c := refCall{addr: address, path: path, ok: err == nil}
+		if err == nil {
+			c.ra, c.rp = r.GetAddress(), r.GetPath()
+		}
+		refCalls = append(refCalls, c)
+		return r, err
+	})
+}
+
+func oracleTerm(cs []refCall) lib.T {
+	xs := make([]lib.T, 0, len(cs))
+	seen := map[string]bool{}
+	for _, c := range cs {
+		k := c.addr + "\x00|" + c.path
+		if seen[k] {
+			continue
+		}
+		seen[k] = true
+		if c.ok {
+			xs = append(xs, lib.L(lib.S(c.addr), lib.S(c.path), lib.L(lib.N(0), lib.S(c.ra), lib.S(c.rp))))
+		} else {
+			xs = append(xs, lib.L(lib.S(c.addr), lib.S(c.path), lib.L(lib.N(1))))
+		}
+	}
+	return lib.LS(xs)
+}
+
 // ---- error classes (merr_code in MsgsRun.v) ----
 
 func errCode(err error) uint64 {
@@ -114,6 +158,8 @@ func errCode(err error) uint64 {
 	switch {
 	case errors.Is(err, errTestCodec):
 		return 10
+	case errors.Is(err, vivid.ErrorRefInvalidAddress), errors.Is(err, vivid.ErrorRefInvalidPath):
+		return 15
 	case strings.Contains(s, "no codec configured"):
 		return 11
 	case strings.HasPrefix(s, "serialize message ") && strings.Contains(s, " failed: "):
@@ -455,8 +501,10 @@ func valid(v any, hc bool) bool {
 		return m != nil && hc && !(len(m.Data) > 0 && (m.Data[0] == 0xFE || m.Data[0] == 0xFF))
 	case *vivid.OnLaunch:
 		return m != nil
-	case *vivid.OnKill, *vivid.OnKilled:
-		return false // the reader rejects the interface-typed field: see intended()
+	case *vivid.OnKill:
+		return m != nil && validKRef(m.Killer)
+	case *vivid.OnKilled:
+		return m != nil && validKRef(m.Ref)
 	case *vivid.PipeResult:
 		if m == nil || !valid(m.Message, hc) {
 			return false
@@ -523,17 +571,21 @@ func valid(v any, hc bool) bool {
 	return false
 }
 
-// intended: OnKill / OnKilled carrying a non-nil *actor.Ref - the values remote Kill / Watch put on the wire.
-// valid_msg excludes them (C12_OnKill_refuted: no value of these types survives); the round-trip monitor
-// still fires on them, because the property quantifies over them.
-func intended(v any) bool {
-	switch m := v.(type) {
-	case *vivid.OnKill:
-		return m != nil && isRealRef(m.Killer)
-	case *vivid.OnKilled:
-		return m != nil && isRealRef(m.Ref)
+// validKRef: an ActorRef field survives iff it is nil or a ref that actor.NewRef accepts unchanged
+// (valid_kref of Codec/Msgs.v)
+func validKRef(r vivid.ActorRef) bool {
+	if r == nil {
+		return true
 	}
-	return false
+	if !isRealRef(r) {
+		return false
+	}
+	a, p := r.GetAddress(), r.GetPath()
+	if a == "" && p == "" {
+		return false
+	}
+	n, err := actor.NewRef(a, p)
+	return err == nil && n.GetAddress() == a && n.GetPath() == p
 }
 
 // ---- generators ----
@@ -727,7 +779,8 @@ func (g *G) viewValid() *cluster.ClusterView {
 	return v
 }
 
-var refPool = [][2]string{{"localhost:8080", "/a"}, {"", ""}, {"", "/x"}, {"h", ""}, {"example.com", "/user/a/b/c"}, {"\xff", "\x00"}}
+var refPool = [][2]string{{"localhost:8080", "/a"}, {"", ""}, {"", "/x"}, {"h", ""}, {"example.com", "/user/a/b/c"}, {"\xff", "\x00"},
+	{"127.0.0.1:9000", "/"}, {" localhost:1 ", "/trim"}, {"[::1]:80", "/v6/x"}, {"localhost", "/a/@future@x"}, {"localhost:8080", "/a "}, {"10.0.0.1", "/bare-ip"}}
 
 func (g *G) ref(i int) vivid.ActorRef {
 	switch i {
@@ -1187,6 +1240,7 @@ func kindOf(v any) int {
 // decodeOp runs one decode entry point of the real code and renders the outcome (shared by parent and child).
 func decodeOp(op int, hc bool, kind int, bs []byte) (out lib.T, decoded any, pos int, err error) {
 	codec := codecOf(hc)
+	refCalls = refCalls[:0]
 	switch op {
 	case 4:
 		rd := messages.NewReader(bs)
@@ -1222,14 +1276,14 @@ func decodeOp(op int, hc bool, kind int, bs []byte) (out lib.T, decoded any, pos
 	panic("op")
 }
 
-func decodeIn(op int, hc bool, kind int, bs []byte) lib.T {
+func decodeIn(op int, hc bool, kind int, bs []byte, oracle lib.T) lib.T {
 	switch op {
 	case 4:
-		return lib.L(lib.N(4), lib.Bool(hc), lib.NI(kind), lib.B(bs))
+		return lib.L(lib.N(4), lib.Bool(hc), lib.NI(kind), lib.B(bs), oracle)
 	case 5:
-		return lib.L(lib.N(5), lib.Bool(hc), lib.B(bs))
+		return lib.L(lib.N(5), lib.Bool(hc), lib.B(bs), oracle)
 	}
-	return lib.L(lib.N(7), lib.Bool(hc), lib.B(bs))
+	return lib.L(lib.N(7), lib.Bool(hc), lib.B(bs), oracle)
 }
 
 var hitLimit = func() int {
@@ -1259,7 +1313,7 @@ func (h *H) exercise(v any, hc bool) {
 	if k >= 0 {
 		label = kindNames[k]
 	}
-	ok := valid(v, hc) || intended(v)
+	ok := valid(v, hc)
 	// --- WriteMessage / ReadMessage
 	in3 := lib.L(lib.N(3), lib.Bool(hc), tv)
 	var wm []byte
@@ -1281,16 +1335,15 @@ func (h *H) exercise(v any, hc bool) {
 	if wm != nil {
 		rest := h.r.Bytes(h.r.Intn(4))
 		full := append(append([]byte{}, wm...), rest...)
-		in5 := decodeIn(5, hc, 0, full)
 		var dec any
 		var pos int
 		var derr error
-		out5 := h.protect("ReadMessage", in5, func() lib.T {
+		out5 := h.protect("ReadMessage", lib.L(lib.N(5), lib.B(full)), func() lib.T {
 			var o lib.T
 			o, dec, pos, derr = decodeOp(5, hc, 0, full)
 			return o
 		})
-		h.o.Case("rm:"+label, nt, in5, out5)
+		h.o.Case("rm:"+label, nt, decodeIn(5, hc, 0, full, oracleTerm(refCalls)), out5)
 		if ok {
 			if derr != nil {
 				h.roundtrip("roundtrip:"+label, in3, "ReadMessage(WriteMessage(v)) failed: "+derr.Error())
@@ -1319,16 +1372,15 @@ func (h *H) exercise(v any, hc bool) {
 			b := body[4:]
 			rest := h.r.Bytes(h.r.Intn(4))
 			full := append(append([]byte{}, b...), rest...)
-			in4 := decodeIn(4, hc, k, full)
 			var dec any
 			var pos int
 			var derr error
-			out4 := h.protect("DeserializeRemotingMessage", in4, func() lib.T {
+			out4 := h.protect("DeserializeRemotingMessage", lib.L(lib.N(4), lib.NI(k), lib.B(full)), func() lib.T {
 				var o lib.T
 				o, dec, pos, derr = decodeOp(4, hc, k, full)
 				return o
 			})
-			h.o.Case("dec:"+label, nt, in4, out4)
+			h.o.Case("dec:"+label, nt, decodeIn(4, hc, k, full, oracleTerm(refCalls)), out4)
 			if ok {
 				if derr != nil {
 					h.roundtrip("roundtrip:"+label, in2, "decode(encode(v)) failed: "+derr.Error())
@@ -1365,19 +1417,19 @@ func (h *H) envelope(v any, hc, sys bool, s, r vivid.ActorRef) {
 		}
 		return
 	}
-	in7 := decodeIn(7, hc, 0, data)
 	var dsys bool
 	var sa, sp, ra, rp string
 	var dm any
 	var derr error
-	out7 := h.protect("DecodeEnvelop", in7, func() lib.T {
+	out7 := h.protect("DecodeEnvelop", lib.L(lib.N(7), lib.B(data)), func() lib.T {
+		refCalls = refCalls[:0]
 		dsys, sa, sp, ra, rp, dm, derr = serialize.DecodeEnvelopWithRemoting(codec, data)
 		if derr != nil {
 			return lib.Err(errCode(derr))
 		}
 		return lib.Ok(lib.L(lib.Bool(dsys), lib.S(sa), lib.S(sp), lib.S(ra), lib.S(rp), tmsg(dm)))
 	})
-	h.o.Case("env-dec", true, in7, out7)
+	h.o.Case("env-dec", true, decodeIn(7, hc, 0, data, oracleTerm(refCalls)), out7)
 	if ok {
 		es, ep, er, erp := "", "", "", ""
 		if s != nil {
@@ -1489,9 +1541,11 @@ func main() {
 	child := flag.Bool("child", false, "decode the inputs on stdin (internal)")
 	f := lib.ParseFlags()
 	if *child {
+		installRefRecorder()
 		runChild()
 		return
 	}
+	installRefRecorder()
 	o := lib.NewOut(f.Out)
 	r := lib.NewRand(f.Seed)
 	h := &H{o: o, r: r, seeds: map[string][]seed{}, roundtripHits: map[string]int{}}
